@@ -448,10 +448,11 @@ pub fn make(plan: &str, seed: u64, count: usize, tier: &str, wave: u64) -> (Vec<
     let mut specs = vec![];
     match plan {
         "leftrec" => specs = leftrec_specs(seed, count, wave, "g", &mut stats),
-        "mixed" | "sched" | "errors" => {
+        "mixed" | "sched" | "errors" | "pos" => {
             let prof = prof_for(match plan {
                 "sched" => "memo",
                 "errors" => "core",
+                "pos" => "pos",
                 _ => "mixed",
             }, tier, wave)
             .unwrap();
